@@ -632,6 +632,10 @@ def witness(o, model):
         t[nme] = mval(model, z3.Int(nme))
     for i in range(8):
         t["v%d" % i] = mval(model, z3.Int("v%d" % i))
+    if t.get("what") in ("Buf", "Spare"):
+        arr = z3.Array("d", I, I)
+        n = max(0, min(4096, t["data.len"]))
+        t["data"] = [min(255, max(0, mval(model, z3.Select(arr, i)))) for i in range(n)]
     return t
 
 
@@ -695,4 +699,21 @@ def replay(payload):
         blob = sum(exp["f%d" % i] << fl.offset for i, fl in enumerate(fields))
         ok = out == exp and lay_ok and int.from_bytes(b, "big") == blob
         return {"confirmed": not ok, "observed": [list(b), out], "expected": exp}
+    if what in ("Buf", "Spare"):
+        cls = getattr(cd, what)
+        dl = max(0, f.get("decl.len") or 0)
+        datas = [bytes(f.get("data") or [])] + [bytes([b]) * k for b in (0, 0x2b, 0xff) for k in (dl, 1, 3)]
+        for data in datas:
+            fld = cls("x", len=dl) if dl else cls("x")
+            out = {}
+            try:
+                fld._from_bytes(out, data)
+                enc = fld._to_bytes({"x": data})
+            except Exception as e:
+                return {"confirmed": True, "observed": "%s raised on %r (declared length %d)" % (type(e).__name__, data[:16], dl), "expected": "never raises"}
+            if what == "Buf" and (out.get("x") != data or enc != data):
+                return {"confirmed": True, "observed": [out, enc], "expected": "the octets, stored and returned unchanged"}
+            if what == "Spare" and out != {}:
+                return {"confirmed": True, "observed": out, "expected": "content ignored (nothing stored)"}
+        return {"confirmed": False, "observed": "as specified on %d inputs" % len(datas)}
     return {"confirmed": False, "error": "no native replay for %r (abstract-member contracts have no concrete input)" % what}
